@@ -419,6 +419,23 @@ def mapGet : List (LVal × LVal) → LVal → Option LVal
     | some x => some x
     | none => if k = n then some v else none
 
+def strOf : LVal → Text
+  | .str s => s
+  | _ => []
+
+/-- `if 'i-id' not in colmap: colmap['i-id'] = i` (only when the relation has an `i-id` field) -/
+def addId (withId : Bool) (cm : List (LVal × LVal)) (i : Nat) : List (LVal × LVal) :=
+  if withId then (if (mapGet cm iId).isSome then cm else cm ++ [(iId, .int i)]) else cm
+
+/-- `if with_i_length and 'i-length' not in colmap and 'i-input' in colmap:
+colmap['i-length'] = len((colmap['i-input'] or '').split())` -/
+def addLength (withLen : Bool) (cm : List (LVal × LVal)) : List (LVal × LVal) :=
+  if withLen && (mapGet cm iLength).isNone then
+    match mapGet cm iInput with
+    | some v => cm ++ [(iLength, .int (wordCount (strOf v)))]
+    | none => cm
+  else cm
+
 /-- one iteration of the loop of `_lines_to_records`; `i` is the 1-based number of the data line,
 `seen` the `i_ids` set.  Returns the record (`make_record`) and the new set. -/
 def lineRecord (fields : List Field) (colnames : List LVal) (sp : Splitter)
@@ -431,27 +448,14 @@ def lineRecord (fields : List Field) (colnames : List LVal) (sp : Splitter)
       if colnames.any (· == .none) || colvals.any (fun v => match v with | .str _ => false | _ => true)
       then .error .typeError else .error .commandError
     else
-      let colmap := colnames.zip colvals
       let withId := fields.any (fun f => f.name = "i-id")
       let withLen := fields.any (fun f => f.name = "i-length")
-      let step1 : Except Err (List (LVal × LVal) × List LVal) :=
-        if withId then
-          let cm := if (mapGet colmap iId).isSome then colmap else colmap ++ [(iId, .int i)]
-          let v := (mapGet cm iId).getD .none
-          if seen.contains v then .error .commandError else .ok (cm, v :: seen)
-        else .ok (colmap, seen)
-      match step1 with
-      | .error e => .error e
-      | .ok (cm, seen') =>
-        let cm2 :=
-          if withLen && (mapGet cm iLength).isNone then
-            match mapGet cm iInput with
-            | some v =>
-              let s := match v with | .str s => s | _ => []
-              cm ++ [(iLength, .int (wordCount s))]
-            | none => cm
-          else cm
-        .ok (fields.map (fun f => (mapGet cm2 (.str f.name.toList)).getD .none), seen')
+      let cm := addId withId (colnames.zip colvals) i
+      let idv := (mapGet cm iId).getD .none
+      if withId && seen.contains idv then .error .commandError      -- duplicate i-id
+      else
+        .ok (fields.map (fun f => (mapGet (addLength withLen cm) (.str f.name.toList)).getD .none),
+             if withId then idv :: seen else seen)
 
 def linesLoop (fields : List Field) (colnames : List LVal) (sp : Splitter) :
     Nat → List LVal → List Text → Except Err (List (List LVal))
